@@ -20,7 +20,8 @@ from vlib.runner import Chooser, Violation, HarnessError
 
 PROPERTY = 'C18'
 EXHAUSTIVE = True
-RULE = ('history: Hypothesis draws a universe (3-6 units from seven port layouts, fixed/variable x 1-3 ports, built '
+RULE = ('history: Hypothesis draws a universe (3-6 units from nine port layouts, fixed/variable x 1-3 ports incl. '
+        'variable ins+outs with one nominal inlet, built '
         'through the constructor with ins/outs given as None, (), one stream or a list that may steal docked '
         'streams; 5-10 streams; or one of the two small universes) and up to 50 operations, each drawn from the '
         'operations ENABLED in the current state by exactly the stated preconditions: item assignment (also as '
@@ -29,11 +30,11 @@ RULE = ('history: Hypothesis draws a universe (3-6 units from seven port layouts
         'disconnect, unit.disconnect(inlets/outlets as None, streams or indices, join_ends), unit-unit piping, '
         'unit.insert(stream, inlet, outlet), take_place_of, replace_with(other/None), saving and reconnecting '
         'Connections, constructing further units; arguments are free streams, streams docked elsewhere, None and '
-        'placeholder streams.  Operations inside a known finding\'s trigger region are only generated in "risky" '
-        'histories (half of them), which end there.  bfs: explicit-state enumeration of every sequence of the small '
+        'placeholder streams; unit.insert is drawn with inlet/outlet omitted, as index and as stream in every '
+        '(layout kind, argument form) cell that raises no documented ValueError (30 required cells).  bfs: explicit-state enumeration of every sequence of the small '
         'alphabet (same generator driven by an exhaustive chooser; interchangeable never-docked streams reduced to '
         'the lowest one, one placeholder argument per target, full-span slices of <=2 streams, single-port '
-        'unit.disconnect selections) on Mix(2->1 fixed), Split(1->2 fixed), Var(2/2 variable) with five streams, '
+        'unit.disconnect selections) on Mix(2->1 fixed), Split(1->2 fixed), Var1(1/2 variable) with five streams, '
         'from the empty flowsheet A and the chained flowsheet B (s0,s1->Mix->s2->Split->s3->Var, s4 free): depth 3 '
         'for both in the quick tier, depth 4 for A and 3 for B and for the looped flowsheet C (Split->s1,s2->Var->s0->'
         'Split) in the thorough tier; a sequence is not extended '
@@ -80,12 +81,35 @@ LAYOUT = {
     'MixV': (2, 1, False, True),
     'SplitV': (1, 2, True, False),
     'Big': (3, 3, True, True),
+    'VV1': (1, 1, False, False),      # variable ins and outs with ONE nominal inlet: unit.insert(stream) needs no arguments
+    'Var1': (1, 2, False, False),     # the variable unit of the small universes (same property, two nominal outlets)
+    'FixV': (2, 2, True, False),      # fixed 2 ins / variable outs
 }
 CLS = {}
 for _n, (_a, _b, _c, _d) in LAYOUT.items():
     CLS[_n] = type(_n, (tmo.AbstractUnit,), dict(_N_ins=_a, _N_outs=_b, _ins_size_is_fixed=_c,
                                                   _outs_size_is_fixed=_d, line=_n))
-CLASS_NAMES = list(LAYOUT)
+CLASS_NAMES = [n for n in LAYOUT if n != 'Var1']
+
+
+def _insert_cells():
+    """Every (layout kind, argument form) of unit.insert(stream, inlet, outlet) that raises no documented ValueError:
+    outlet may be omitted when outs are variable or hold one fixed port; inlet may be omitted when ins are variable and
+    the stream is not going to be appended to outs, or when there is exactly one nominal inlet."""
+    cells = set()
+    one = lambda k: '1' if k == 1 else 'N'
+    for nin, nout, fin, fout in LAYOUT.values():
+        kind = f'ins={"fixed" if fin else "var"}{one(nin)},outs={"fixed" if fout else "var"}{one(nout)}'
+        for ol in ('none', 'given'):
+            if ol == 'none' and fout and nout != 1: continue
+            added = ol == 'none' and not fout
+            for il in ('none', 'given'):
+                if il == 'none' and (fin or added) and nin != 1: continue
+                cells.add(f'uinsert:{kind}:inlet={il},outlet={ol}')
+    return sorted(cells)
+
+
+REQUIRED_CELLS['quick'] += _insert_cells()
 SIDE = ('ins', 'outs')
 _TH = None
 
@@ -357,15 +381,15 @@ def small_universe(ctx, w, cfg):
     if cfg == 'A':
         build_unit(ctx, w, 'Mix', 'none', 'none')
         build_unit(ctx, w, 'Split', 'none', 'none')
-        build_unit(ctx, w, 'Var', 'none', 'none')
+        build_unit(ctx, w, 'Var1', 'none', 'none')
     elif cfg == 'B':        # s0, s1 -> Mix -> s2 -> Split -> s3 -> Var ; s4 free
         build_unit(ctx, w, 'Mix', ['list', [s(0), s(1)]], ['list', [s(2)]])
         build_unit(ctx, w, 'Split', ['one', s(2)], ['list', [s(3)]])
-        build_unit(ctx, w, 'Var', ['list', [s(3)]], ['list', []])
+        build_unit(ctx, w, 'Var1', ['list', [s(3)]], ['list', []])
     else:                   # C: Split -> s1, s2 -> Var -> s0 -> Split (a loop; the constructor steals s0 from Mix), s3 product
         build_unit(ctx, w, 'Mix', 'none', ['one', s(0)])
         build_unit(ctx, w, 'Split', ['list', [s(0)]], ['list', [s(1), s(2)]])
-        build_unit(ctx, w, 'Var', ['list', [s(1), s(2)]], ['list', [s(3), s(0)]])
+        build_unit(ctx, w, 'Var1', ['list', [s(1), s(2)]], ['list', [s(3), s(0)]])
     w.saved = [x.get_connection() for x in w.reals[:5]]
 
 
@@ -582,7 +606,7 @@ def enabled_kinds(w, P):
     if pipe_pairs(w): kinds.append('upipe')
     if tp_pairs(w): kinds.append('take_place_of')
     if rw_opts(w): kinds.append('replace_with')
-    if insert_pairs(w, P): kinds.append('uinsert')
+    if insert_pairs(w, P): kinds += ['uinsert'] * (1 if small else 4)      # rarely enabled, so weighted when it is
     if reconnectable(w): kinds.append('reconnect')
     if not small:
         kinds.append('save')
@@ -728,31 +752,11 @@ def pick_op(ch, w, P):
 # known trigger regions (avoided in non-risky histories so that sequences run to full length)
 # ---------------------------------------------------------------------------
 
-def _held(o, sd):
-    """Would dropping o from a list on side sd without undocking be visible: real stream, or a placeholder that
-    also sits in a port list on the other side (and so stays tracked)."""
-    return isinstance(o, AS) or ptr(o, 1 - sd) is not None
-
-
 def known_region(w, op):
-    """Name of the known-finding trigger region the operation falls in (None if none)."""
-    k = op[0]
-    if k == 'pop':
-        _, ui, sd, i = op
-        if not w.fixed(ui, sd) and _held(w.items(ui, sd)[i], sd): return 'pop-variable'
-    if k == 'clear':
-        _, ui, sd = op
-        if w.fixed(ui, sd) and any(_held(o, sd) for o in w.items(ui, sd)): return 'clear-fixed'
-    if k == 'udisc':
-        if op[3][0] == 'streams' and op[3][1]: return 'disconnect-outlets'
-    if k == 'uinsert':
-        _, ui, s, il, ol = op
-        if il != 'none' and il[0] == 'i': return 'insert-inlet-int'
-        if ol == 'none' and not w.fixed(ui, 1): return 'insert-variable-outs'
-    if k == 'slice':
-        _, ui, sd, a, b, xs, via = op
-        n = len(w.lst(ui, sd))
-        if w.fixed(ui, sd) and n - (b - a) + len(xs) > w.nominal(ui, sd): return 'slice-grow'
+    """Name of the known-finding trigger region the operation falls in (None if none).  Operations in such a region
+    are generated only in "risky" histories, which end there.  Former regions (pop on variable lists, clear on fixed
+    lists, disconnect(outlets=[streams]), insert(inlet=<int>), insert into variable outs, growing slices) were
+    repaired in the repository, so nothing is avoided any more."""
     return None
 
 
@@ -922,6 +926,9 @@ def apply_op(ctx, w, op):
         tag = lambda spec: spec if spec == 'none' else {'i': 'int', 's': 'stream'}[spec[0]]
         region = (f'ins={"fixed" if fin else "var"}{nin},outs={"fixed" if fout else "var"}{nout},'
                   f'inlet={tag(il)},outlet={tag(ol)}')
+        one = lambda k: '1' if k == 1 else 'N'
+        ctx.cell(f'uinsert:ins={"fixed" if fin else "var"}{one(nin)},outs={"fixed" if fout else "var"}{one(nout)}:'
+                 f'inlet={"none" if il == "none" else "given"},outlet={"none" if ol == "none" else "given"}')
         ctx.call('unit.insert', u.insert, stream, inlet=arg(il, 0), outlet=arg(ol, 1), region=region)
         return 'unit.insert', region
     if k == 'reconnect':
@@ -1149,8 +1156,11 @@ def prop_bfs(_, ctx):
 
     plan = (('A', depth), ('B', min(depth, 3))) + ((('C', 3),) if depth >= 4 else ())
     for cfg, cfg_depth in plan:
+        # Every shard walks the levels above the last one completely (cheap), so that the list of distinct states to
+        # expand at the last level is the same everywhere; the last level - almost all of the work - is split by state
+        # index (by operation index when there are fewer states than shards).  No state is expanded by two shards.
         ctx.cell(f'bfs:cfg={cfg}')
-        nseq = nstates = nspot = 0
+        nseq = nstates = nspot = nexec = 0
         seen = set()
         frontier = [[]]
         level = 0
@@ -1160,25 +1170,35 @@ def prop_bfs(_, ctx):
                 break
             level += 1
             last = level == cfg_depth
+            by_state = last and len(frontier) >= ctx.nshards
             nxt = []
-            for steps in frontier:
+            for si, steps in enumerate(frontier):
+                mine = si % ctx.nshards == ctx.shard
+                if by_state and not mine: continue
                 try:
                     w = from_scratch(cfg, steps)
                 except Violation as v:          # only possible while building the initial flowsheet
-                    nseq += 1; ctx.evaluations += 1; stats['evaluations'] += 1
+                    if ctx.shard == 0:
+                        nseq += 1; ctx.evaluations += 1; stats['evaluations'] += 1
                     record(v, full_log(cfg, steps))
                     continue
                 key0 = state_key(w)
                 if level == 1:
                     seen.add(key0)
                 leaves = all_ops(w, w.P)
-                if level == 1:
-                    done[f'cfg{cfg}:root_ops'] = len(leaves) if ctx.shard == 0 else 0
-                    leaves = [x for i, x in enumerate(leaves) if i % ctx.nshards == ctx.shard]
-                nstates += 1
+                if level == 1 and ctx.shard == 0:
+                    done[f'cfg{cfg}:root_ops'] = len(leaves)
+                if mine: nstates += 1
                 snap = snapshot(w)
-                for leaf in leaves:
-                    nseq += 1; ctx.evaluations += 1; stats['evaluations'] += 1
+                for li, leaf in enumerate(leaves):
+                    if last and not by_state:
+                        owned = li % ctx.nshards == ctx.shard
+                        if not owned: continue
+                    else:
+                        owned = mine
+                    nexec += 1
+                    if owned:
+                        nseq += 1; ctx.evaluations += 1; stats['evaluations'] += 1
                     try:
                         do_step(TrustedReplay(leaf), ctx, w)
                         finish(ctx, w)
@@ -1186,7 +1206,7 @@ def prop_bfs(_, ctx):
                         record(v, full_log(cfg, steps + [leaf]))
                         restore(w, snap)
                         continue
-                    spot = nseq % SPOT == 0
+                    spot = nexec % SPOT == 0
                     if spot or not last:
                         key = state_key(w)
                         if spot:
@@ -1198,7 +1218,7 @@ def prop_bfs(_, ctx):
                         if not last and key not in seen:
                             seen.add(key)
                             nxt.append(steps + [leaf])
-                    if last and (len(ctx.samples) < 2 or (len(ctx.samples) < 4 and nseq % 9973 == 0)):
+                    if last and (len(ctx.samples) < 2 or (len(ctx.samples) < 4 and nexec % 9973 == 0)):
                         ctx.samples.append({'check': name_hist, 'case': full_log(cfg, steps + [leaf])})
                     restore(w, snap)
                 if state_key(w) != key0:
